@@ -105,6 +105,19 @@ def make_components(rp, tree, bus):
     return c
 
 
+def work_as_work_cb(comp, things):
+    """what BaseComponent.work_cb does around a work routine (tied separately: C05's run_work_cb drives the real
+    work_cb): an exception that escapes the routine fails every thing of the bulk it was called with"""
+    import radical.utils as ru
+    try:
+        comp.work(things)
+    except Exception as e:
+        for thing in things:
+            thing['exception']        = repr(e)
+            thing['exception_detail'] = '\n'.join(ru.get_exception_trace())
+        comp.advance(things, 'FAILED', publish=True, push=False)
+
+
 def run(rp, tree, tasks, plans):
     """tasks: task dicts (stagelib.Tree.task_dict), plans: uid -> {'exec': 'no_launcher'|'launch_error'|'canceled'|'timeout'|int,
     'produce': {rel: content}}.  Returns the bus and the components."""
@@ -118,10 +131,10 @@ def run(rp, tree, tasks, plans):
     try:
         for t in tasks:
             t['type'] = 'task'; t['origin'] = 'client'
-        c['tin'].work(tasks)
+        work_as_work_cb(c['tin'], tasks)
         os.chdir(tree.psbox)
         to_agent = [copy.deepcopy(t) for t in c['tin'].sink]
-        c['ain'].work(to_agent)
+        work_as_work_cb(c['ain'], to_agent)
         to_exec = list(c['ain'].sink)
         # the agent scheduler passes the task on (C01-C04); its notifications are not part of this run
         p = c['exec']
@@ -153,7 +166,7 @@ def run(rp, tree, tasks, plans):
             return orig_open(path, *a, **k)
         ru.ru_open = patched_open
         popen_mod.ru.ru_open = patched_open
-        p.work(to_exec)
+        work_as_work_cb(p, to_exec)
         popen_mod.sp.Popen = saved[0]
         # the processes run; what the task writes appears in its sandbox; then they end as planned
         to_watch = []
@@ -185,10 +198,10 @@ def run(rp, tree, tasks, plans):
             t.pop('_fake', None)
             t.setdefault('stdout', ''); t.setdefault('stderr', '')
             t['stdout_file'] = t['stderr_file'] = None
-        c['aout'].work(to_out)
+        work_as_work_cb(c['aout'], to_out)
         os.chdir(tree.client)
         to_client = [copy.deepcopy(t) for t in c['aout'].sink]
-        c['tout'].work(to_client)
+        work_as_work_cb(c['tout'], to_client)
     finally:
         popen_mod.sp.Popen = saved[0]
         ru.ru_open = saved[1]; popen_mod.ru.ru_open = saved[1]
